@@ -1975,6 +1975,26 @@ def fixed_witnesses():
       {"kind": "LinearConstraints", "tag": "D18", "units": 1, "wseed": 6, "n": 3,
        "kw": {"monotonicities": [1, 1, 0], "range_dominances": [T(0, 1)], "input_min": [0.0, 0.0, 5.0],
               "input_max": [1.0, 2.0, 5.0]}},
+      {"kind": "PWLCalibration", "tag": "D44", "wseed": 14,
+       "kw": {"input_keypoints": [0.0, 1.0, 2.0], "units": 1, "monotonicity": 0, "convexity": "None",
+              "input_keypoints_type": "learned_interior"},
+       "syn": {"input_keypoints": [0.0, 1.0, 2.0], "units": 1, "monotonicity": 0, "convexity": 0,
+               "input_keypoints_type": "learned_interior"}},
+      {"kind": "LinearConstraints", "tag": "D45", "units": 1, "wseed": 8, "n": 3,
+       "kw": {"monotonicities": [1, 1, 1], "range_dominances": [T(0, 2)], "input_min": [0.0, 0.0],
+              "input_max": [1.0, 1.0]}},
+      {"kind": "Linear", "tag": "D56", "wseed": 9, "n": 2,
+       "kw": {"monotonicities": [1, 1], "num_input_dims": 2, "units": 2, "input_min": [-0.25], "input_max": [0.25]}},
+      {"kind": "Linear", "tag": "D52", "wseed": 10, "n": 3,
+       "kw": {"num_input_dims": 3, "units": 2, "kernel_regularizer": "l2", "bias_regularizer": "l1"}},
+      {"kind": "LatticeConstraints", "tag": "D55", "units": 2, "wseed": 11,
+       "kw": {"lattice_sizes": [3], "monotonicities": [1], "joint_monotonicities": [T(0, 0)]}},
+      {"kind": "LatticeConstraints", "tag": "D53", "units": 1, "wseed": 12,
+       "kw": {"lattice_sizes": T(2, 3), "monotonicities": [0, 0], "joint_unimodalities": [T([1, 1], "peak")]}},
+      {"kind": "Lattice", "tag": "D41", "wseed": 13,
+       "kw": {"lattice_sizes": [3, 3], "joint_unimodalities": T(T(0, 0), 1)}},
+      {"kind": "Lattice", "tag": "D41", "wseed": 13,
+       "kw": {"lattice_sizes": [3, 3], "joint_unimodalities": T([0, 5], "peak")}},
       {"kind": "CategoricalCalibration", "tag": "D20", "dtype": "float64", "wseed": 7,
        "kw": {"num_buckets": 3, "units": 1}},
       {"kind": "CategoricalCalibration", "tag": "D20", "dtype": "float64", "wseed": 7,
